@@ -221,6 +221,7 @@ Qed.
 Lemma exec_body_ok sk g l : forall st, ok2 st (exec_body sk g st l).
 Proof.
   induction l as [|s r IH]; intros st; cbn [exec_body]; [split; [reflexivity|constructor]|].
+  destruct (pass_ends g s) as [[|]|]; [split; [reflexivity|constructor]|apply IH|].
   pose proof (exec_ok body_fuel sk g 0 st s) as [H1 E1]. destruct (exec body_fuel sk g 0 st s) as [s1 e1]. cbn [fst snd] in *.
   pose proof (IH s1) as [H2 E2]. destruct (exec_body sk g s1 r) as [s2 e2]. cbn [fst snd] in *.
   split; cbn [fst snd]; [congruence|apply no_dr_app; assumption].
